@@ -19,11 +19,32 @@ class Built:
         self.stemline = {}  # src -> Line leaving the driver
         self.line_src = {}  # line index -> src
 
+    def s_order(self):
+        """the documented order of the rows of `s`: ports as listed in io_nodes, then all flip-flops, then all latches. Ports and the two groups
+        are computed here from the port and node lists; only the order *inside* a group (not documented) is taken over from Circuit.s_nodes."""
+        c = self.c
+        sn = list(c.s_nodes)
+
+        def group(nodes):
+            ids = {id(n) for n in nodes}
+            as_listed = [n for n in sn if id(n) in ids and not any(n is p for p in c.io_nodes)]
+            return as_listed if len(as_listed) == len(nodes) and len({id(n) for n in as_listed}) == len(nodes) else nodes
+        return list(c.io_nodes) + group([n for n in c.nodes if 'dff' in n.kind.lower()]) + group([n for n in c.nodes if 'latch' in n.kind.lower()])
+
     def s_pos(self, node):
-        for i, n in enumerate(self.c.s_nodes):
+        for i, n in enumerate(self.s_order()):
             if n is node:
                 return i
-        raise HarnessError(f'{node} is not in s_nodes')
+        raise HarnessError(f'{node} is not a port or state element')
+
+
+ST_SUFFIX = ['', 'S', 'I', 'SI', '_IS', 'si', 'X']
+
+
+def st_name(nl, k):
+    """instance name of state element k: s<k> plus a suffix chosen by nl['stnames'] (names ending in capital letters, as register names do)"""
+    v = nl.get('stnames')
+    return f's{k}' if not v else f's{k}' + ST_SUFFIX[(v >> (3 * k)) % len(ST_SUFFIX)]
 
 
 def build(nl, name='top'):
@@ -49,7 +70,7 @@ def build(nl, name='top'):
         order.reverse()
     b.st = [None] * len(nl['st'])
     for k in (reversed(range(len(nl['st']))) if nl.get('strev') else range(len(nl['st']))):     # creation order = order in s_nodes
-        b.st[k] = Node(c, f's{k}', nl['st'][k]['k'])
+        b.st[k] = Node(c, st_name(nl, k), nl['st'][k]['k'])
     for k in order:
         gate_nodes[k] = Node(c, f'g{k}', nl['g'][k]['k'])
     b.g = gate_nodes
@@ -95,7 +116,8 @@ def build(nl, name='top'):
                 l = Line(c, (drv, dpin), fork)
                 b.stemline[src] = l
                 lines.append(l)
-            if not cells:
+            port_deep = bool((not cells) and po_idx and mode == 'L' and nl.get('pdeep') and not is_port_fork and real_readers)
+            if not cells and not port_deep:
                 for k in po_idx:
                     b.po[k] = fork
             if mode in ('C', 'L') and real_readers:
@@ -112,6 +134,9 @@ def build(nl, name='top'):
                 sub_node = {None: fork}
                 for key, name, _ in (reversed(subs) if late else subs):
                     sub_node[key] = Node(c, name)
+                if port_deep:            # bench-style output port at the end of the fork chain (stem fork -> fork -> port fork)
+                    for k in po_idx:
+                        b.po[k] = sub_node['b']
                 def attach():
                     for r, key in att:
                         l = Line(c, sub_node[key], reader_pin(r))
@@ -130,9 +155,19 @@ def build(nl, name='top'):
         for l in lines:
             b.line_src[l.index] = src
     # ports ------------------------------------------------------------------------------------
-    for label in nl['ports']:
-        k = int(label[1:])
-        c.io_nodes.append(b.pi[k] if label[0] == 'i' else b.po[k])
+    target = [b.pi[int(label[1:])] if label[0] == 'i' else b.po[int(label[1:])] for label in nl['ports']]
+    if nl.get('peek') and len(target) > 1:
+        # the circuit is looked at while it is still being edited: ports first go in in another order (rotated), the interface is read
+        # (s_nodes, look-ups), then the port list is re-ordered in place - node, line and port counts stay the same
+        for n in target[1:] + target[:1]:
+            c.io_nodes.append(n)
+        _ = [n.index for n in c.s_nodes]
+        _ = c.stats
+        for i, n in enumerate(target):
+            c.io_nodes[i] = n
+    else:
+        for n in target:
+            c.io_nodes.append(n)
     if any(n is None for n in c.io_nodes):
         raise HarnessError('builder: unresolved output port')
     return b
